@@ -359,3 +359,104 @@ class Fn(Callable_):
 
     def invoke(self, ex, st, args, kwargs, node):
         return self.fn(ex, st, args, kwargs, node)
+
+
+# ------------------------------------------------------------------ queues on a ghost clock (single consumer view)
+RealSeq = z3.SeqSort(z3.RealSort())
+
+
+class TimedQueue(Obj):
+    """A queue seen from its consumer, on a ghost clock.  Time passes only inside blocking calls (idealisation,
+    DESIGN 6.6): get() blocks arbitrarily long and returns an item; get(timeout=t) returns an item no later than
+    clock+t or raises queue.Empty at exactly clock+t; get(block=False)/get_nowait() is immediate.
+    Ghosts: <key>.taken (items returned so far), <key>.times (return time of each), clock."""
+    trusted = 'queue.Queue/SimpleQueue/SingleLane.get as seen by one consumer: blocking get returns the next item; timed get returns it within the timeout or raises Empty at the timeout; time passes only in blocking calls'
+
+    def __init__(self, ex, key='q', fns=(), clock='clock', label=None):
+        super().__init__(ex, label or key)
+        self.key, self.fns, self.clock = key, fns, clock
+
+    def init(self, st):
+        st.ghost[self.key + '.taken'] = V.EMPTY
+        st.ghost[self.key + '.times'] = z3.Empty(RealSeq)
+        st.ghost[self.key + '.last_empty'] = z3.BoolVal(False)
+        if self.clock not in st.ghost:
+            st.ghost[self.clock] = z3.RealVal(0)
+
+    def taken(self, st):
+        return st.ghost[self.key + '.taken']
+
+    def times(self, st):
+        return st.ghost[self.key + '.times']
+
+    def havoc(self, ex, st):
+        pass
+
+    def _item(self, ex, st, t_ret):
+        z = fresh('item')
+        st.ghost[self.clock] = t_ret
+        st.ghost[self.key + '.taken'] = snoc(st, self.taken(st), z, self.fns)
+        st.ghost[self.key + '.times'] = z3.Concat(self.times(st), z3.Unit(t_ret))
+        st.ghost[self.key + '.last_empty'] = z3.BoolVal(False)
+        return z
+
+    def m_get(self, ex, st, args, kwargs, node):
+        block = args[0] if args else kwargs.get('block')
+        timeout = args[1] if len(args) > 1 else kwargs.get('timeout')
+        now = st.ghost[self.clock]
+        if block is not None and not z3.is_true(z3.simplify(block)):
+            if z3.is_false(z3.simplify(block)):
+                timeout = z3.RealVal(0)
+            else:
+                raise Unsupported('symbolic block flag')
+        if timeout is None or (is_z3(timeout) and timeout.sort() == Val and timeout.eq(NONE)):
+            s = st.fork()
+            t = fresh('t_ret', z3.RealSort())
+            s.assume(t >= now)
+            z = self._item(ex, s, t)
+            return [('ok', s, z)]
+        if timeout.sort() == z3.IntSort():
+            timeout = z3.ToReal(timeout)
+        ex.oblige(st, f'line {node.lineno}: timeout passed to get() is non-negative', timeout >= 0)
+        outs = []
+        s1 = st.fork()
+        t = fresh('t_ret', z3.RealSort())
+        s1.assume(t >= now, t <= now + timeout)
+        z = self._item(ex, s1, t)
+        outs.append(('ok', s1, z))
+        s2 = st.fork()
+        s2.ghost[self.clock] = now + timeout
+        s2.ghost[self.key + '.last_empty'] = z3.BoolVal(True)
+        (k, s2, e) = ex.raise_new(s2, 'queue.Empty')
+        outs.append((k, s2, e))
+        return outs
+
+    def m_get_nowait(self, ex, st, args, kwargs, node):
+        return self.m_get(ex, st, [z3.BoolVal(False)], {}, node)
+
+
+class GhostClock(Callable_):
+    """time.perf_counter on the ghost clock (exact read, no time passes)."""
+    trusted = 'time.perf_counter reads the ghost clock; computation between blocking calls takes no time (idealisation)'
+
+    def __init__(self, key='clock'):
+        self.key = key
+
+    def invoke(self, ex, st, args, kwargs, node):
+        return [('ok', st, st.ghost[self.key])]
+
+
+class Sleep(Callable_):
+    trusted = 'time.sleep(t) advances the ghost clock by t'
+
+    def __init__(self, key='clock'):
+        self.key = key
+
+    def invoke(self, ex, st, args, kwargs, node):
+        st = st.fork()
+        t = args[0]
+        if t.sort() == z3.IntSort():
+            t = z3.ToReal(t)
+        st.ghost[self.key] = st.ghost[self.key] + t
+        st.ghost['slept'] = st.ghost.get('slept', z3.RealVal(0)) + t
+        return [('ok', st, NONE)]
